@@ -15,6 +15,44 @@ def _is_path(t, base, path):
     return t == base
 
 
+def per_element_site(P, f, v, site, coll):
+    """the call at `site` is executed once for every element of the collection matched by `coll`: it sits in the body of a loop
+    of f over that collection (no early exit), or in the closure `.map(..)`ped over it (a value drawn before the traversal and
+    pushed for every element is the same term but one draw)"""
+    if not site:
+        return False
+    fk, bb = (site[2], site[-1]) if site[0] == "inl" else (site[0], site[-1])
+    if fk == f.key:
+        for lp in loop_report(P, f, v):
+            if bb in lp["body"] and lp["iter_term"] is not None and coll(strip_iter_calls(lp["iter_term"])) and \
+                    not any(c == "break" for _, c in lp["exits"]):
+                sv = seq_view(lp["iter_term"])
+                return sv is not None and not sv["adaptors"] and not sv["drop_front"] and not sv["drop_back"]
+        return False
+    for (b2, t, ci) in f.calls():
+        if ci and ci.get("name") == "map" and (ci.get("trait") or "").endswith("Iterator"):
+            a = v.call_args(b2)
+            if len(a) == 2 and a[1][0] == "closure" and a[1][1] == fk:
+                sv = seq_view(a[0])
+                cf = P.fns.get(fk)
+                return sv is not None and not sv["adaptors"] and not sv["drop_front"] and not sv["drop_back"] and coll(sv["base"]) \
+                    and cf is not None and not cf.loops()
+    return False
+
+
+def batch_blinder(P, f, v):
+    """(msm call sites, scalar components, point components, the per-item draw component(s), verdict): the blinder of
+    Verifier::verify is the per-item scalar component that is a `Field::random(caller's rng)` executed once per queued item"""
+    sigs = fld(arg(1), "signatures")
+    msm = [(bb, v.call_args(bb)) for (bb, t, ci) in f.calls() if ci and ci.get("name") == "vartime_multiscalar_mul"]
+    sc, pt = ((seq_components(P, f, v, a) for a in msm[0][1]) if len(msm) == 1 else ([], []))
+    sc, pt = list(sc), list(pt)
+    is_draw = lambda x: is_call(x, name="random") and "Field" in x[1] and len(x[2]) == 1 and mentions(x[2][0], arg(2))
+    drawn = [c for c in sc if c[0] == "each" and sigs(c[1]) and is_draw(c[2])]
+    good = len(drawn) == 1 and per_element_site(P, f, v, drawn[0][2][3], sigs)
+    return msm, sc, pt, drawn, good
+
+
 def run(ctx):
     ctx.decided = ("the empty batch is refused; one fresh blinder is drawn inside the per-item loop from the caller's "
                    "rng; the loop covers every queued item and pushes the item's three terms (blinder*z into the "
@@ -33,21 +71,19 @@ def run(ctx):
         refusal(ctx, f, "SEP", "G41:empty-batch-refused",
                 [("n==0", cmp_fact("eq", length(sigs), const(0), True)),
                  ("is_empty", cmp_fact("empty", sigs, None, True))], ok_sinks(f))
-        reductions(ctx, f.key, adaptors={}, min_loops=1)
-        # the multiscalar multiplication's two inputs as ordered components (engine D views): one-element and per-item parts
-        msm = [(bb, v.call_args(bb)) for (bb, t, ci) in f.calls() if ci and ci.get("name") == "vartime_multiscalar_mul"]
-        draws = [(bb, t) for (bb, t, ci) in f.calls() if ci and ci.get("name") == "random" and (ci.get("trait") or "").endswith("Field")]
-        lps = [lp for lp in loop_report(P, f) if draws and draws[0][0] in lp["body"]]
-        good = len(draws) == 1 and len(lps) == 1 and mentions(v.call_args(draws[0][0])[0], arg(2)) and \
-            lps[0]["iter_term"] is not None and sigs(strip_iter_calls(lps[0]["iter_term"])) and \
-            not any(c == "break" for _, c in lps[0]["exits"])
+        reductions(ctx, f.key, adaptors={"zip": 2}, min_loops=1, may_be_absent=("zip",))
+        # the multiscalar multiplication's two inputs as ordered components (engine D views): one-element and per-item parts.
+        # The blinder is found from them: the per-item component that *is* a draw `Field::random(rng)` made with the caller's rng —
+        # in a loop body or in the closure of a `.map(..)` over the queue, stored and reused element-wise afterwards.
+        msm, sc, pt, drawn, good = batch_blinder(P, f, v)
         ctx.check(good, "DRAW", f.key, "blinder-per-item",
                   "the blinding factor must be drawn from the caller's rng once per item, inside a loop over every queued item (a "
                   "hoisted or shared blinder lets crafted invalid items cancel)", f.loc)
-        ctx.check(good, "RED", f.key, "loop-over-every-item", "the batch loop does not run over all queued items", f.loc)
+        ctx.check(good and all(c[0] == "one" or (c[0] == "each" and sigs(c[1])) for c in sc + pt), "RED", f.key, "loop-over-every-item",
+                  "the batch loop does not run over all queued items", f.loc)
         if good and len(msm) == 1:
-            blind = lambda t: is_call(t, name="random") and t[3] == (f.key, draws[0][0])
-            sc, pt = (seq_components(P, f, v, a) for a in msm[0][1])
+            the_draw = drawn[0][2]
+            blind = lambda t: is_call(t, name="random") and t[3] == the_draw[3]
             each = lambda c, pred: c[0] == "each" and sigs(c[1]) and pred(c[2])
             itf = lambda *path: (lambda t: _is_path(strip_newtype_fields(t), ITEM, path) or _is_path(t, ITEM, path))
             r_coef = lambda c: each(c, blind)
